@@ -5,20 +5,21 @@
 set -u
 SEED=$1; CDIR=$2; CRATE=$3; DEMO=$4; PROP=$5; NEEDS=$6
 S=/verif/seeded/$SEED
-WT=/tmp/wt/verify
+WT=${WT:-/tmp/wt/verify}
+L=/tmp/vs_$SEED
 if [ ! -d $WT ]; then git -C /repo worktree add -q --detach $WT HEAD; fi
 cd $WT && git checkout -q --detach $(git -C /repo rev-parse HEAD) && git checkout -- . && git clean -fdq -e target
 NAME=seed_$(echo $SEED | tr 'A-Z-' 'a-z_')
 case "$CRATE" in */*) CARG="--manifest-path $CRATE";; *) CARG="-p $CRATE";; esac
 mkdir -p $CDIR/tests && cp $S/$DEMO $CDIR/tests/$NAME.rs
-cargo test $CARG --test $NAME --offline > /tmp/vs_clean.log 2>&1; CLEAN=$?
+cargo test $CARG --test $NAME --offline > ${L}_clean.log 2>&1; CLEAN=$?
 git apply $S/patch.diff; APPLY=$?
-cargo test $CARG --test $NAME --offline > /tmp/vs_patched.log 2>&1; PATCHED=$?
+cargo test $CARG --test $NAME --offline > ${L}_patched.log 2>&1; PATCHED=$?
 rm -f $CDIR/tests/$NAME.rs; rmdir $CDIR/tests 2>/dev/null
-cargo test --workspace --no-fail-fast --offline > /tmp/vs_suite.log 2>&1
-SUITE_P=$(grep -E "^test result" /tmp/vs_suite.log | awk '{p+=$4} END {print p+0}')
-SUITE_F=$(grep -E "^test result" /tmp/vs_suite.log | awk '{f+=$6} END {print f+0}')
-BUILD_ERR=$(grep -c "^error" /tmp/vs_suite.log)
+cargo test --workspace --no-fail-fast --offline > ${L}_suite.log 2>&1
+SUITE_P=$(grep -E "^test result" ${L}_suite.log | awk '{p+=$4} END {print p+0}')
+SUITE_F=$(grep -E "^test result" ${L}_suite.log | awk '{f+=$6} END {print f+0}')
+BUILD_ERR=$(grep -c "^error" ${L}_suite.log)
 git checkout -- . ; git clean -fdq -e target
 HEAD=$(git rev-parse --short HEAD)
 python3 - <<PY
